@@ -192,19 +192,22 @@ PROPS["C04"] = dict(
     assumptions=["well-formed ADFs"],
 )
 PROPS["C05"] = dict(
-    level_text="Machine-checked proofs (Lean 4) on the abstract nogood-search machine (same control flow as nogood_internal; heuristic = arbitrary oracle indexed by the number of choices, only "
-               "required to propose an undecided statement): SAFETY - if the run halts, the emitted list is exactly the target models, each once (C05.exact_if_halts, init_invariant); LIVENESS - "
-               "the run halts (terminates, by the big-step lemma; rests on the structure lemma cl_flip proved for the concrete bucketed closure); all five closure laws are proved for the concrete "
-               "closure model; the generic stuttering-simulation lemma (stutter_transfer); validity of Simple, both counting heuristics and the scripted/Rand shape for every generator output "
-               "(builtin_heuristics_valid). PARTIAL: the instantiation of the abstract parameters with the concrete steps and the stuttering simulation between the concrete loop SM.ngIter and the "
-               "abstract iteration are not yet proved (full statement: ng_search_statement). The concrete loop is tied to the code handle for handle: emitted vectors in order, the interpretations "
-               "shown to scripted custom heuristics, node tables; all answers are compared with the brute-force specification; Rand runs under several seeds with a watchdog (a hang is a failing input); "
-               "the channel variants must end the consumer loop (sender dropped).",
-    level_note="Trusted: Lean kernel + standard axioms; concrete-to-abstract simulation not yet proved (partial); Rand's generator (StdRng) is not modelled - its runs are judged by the specification and the "
-               "watchdog only; sender drop is Rust ownership, observed; correspondence differential (n <= 7).",
-    technique="Lean 4 proof (invariant + well-founded big-step argument on an abstract machine, closure laws on the concrete store) + handle-exact correspondence incl. heuristic traces + specification oracle + hang watchdog",
+    level_text="Machine-checked proof (Lean 4) for the CONCRETE executable model of nogood_internal (SM.ngIter / ngRun / ngSearch: the loop the driver runs handle for handle against the code, with the "
+               "repaired bucketed nogood store): for every heuristic of the model (Simple, both counting heuristics, the scripted shape of Rand / custom heuristics under every seed), every "
+               "well-formed store and every valid vector of conditions there is a fuel within which the loop HALTS and the emitted interpretations are, without repetition, EXACTLY the stable models "
+               "(two-valued mode: exactly the two-valued models) of the conditions' functions (C05.ng_search_exact, ng_search_exact_stable; from written formulas: ng_search_exact_from_formulas); "
+               "the same for ANY heuristic function that always proposes an undecided statement with a truth value (ng_search_exact_any_heuristic: arbitrary custom closures). Route: the abstract "
+               "machine generalised over vector and store types with laws relativised to shape invariants (generic_exact_if_halts, generic_terminates), instantiated with the concrete closure and the "
+               "concrete semantics so that no free parameter is left but the raw heuristic answers (semantic_laws_sound / _live, semantic_machine_exact / _halts), and a LOCK-STEP simulation between "
+               "one concrete iteration and one abstract iteration (concrete_iteration_is_abstract_iteration; on denotations the code's handle comparison is the machine's test, by canonicity). "
+               "Two-valued mode needs the side condition that conditions mention statements of the framework only (false otherwise, counterexample by #guard; a property of every parsed text). "
+               "Tie to the code: emitted vectors in order, the interpretations shown to scripted custom heuristics, node tables; all answers vs the brute-force specification; Rand runs under several "
+               "seeds with a watchdog (a hang is a failing input); the channel variants must end the consumer loop (sender dropped); a 1024-model framework exercises the iterator entry point.",
+    level_note="Trusted: Lean kernel + standard axioms; Rand's generator (StdRng) is not modelled - its shape (any undecided statement, any value) is covered by the any-heuristic theorem, its runs are judged by the "
+               "specification and the watchdog; sender drop is Rust ownership, observed; the model's tie to adf.rs is differential (n <= 7, plus one large many-model framework).",
+    technique="Lean 4 proof (safety invariant + well-founded big-step termination on a generic machine, closure laws of the concrete store, lock-step simulation to the concrete loop) + handle-exact correspondence incl. heuristic traces + specification oracle + hang watchdog",
     jobs=[Job("adf", 700, 30000, size=6, size_thorough=7, extra=("ng",), timeout=300,
-              relevant=heads("build", "adopt", "ng", "ngch", "adump", "wfcheck"), nontrivial=nt_adf)],
+              relevant=heads("build", "adopt", "ng", "ngch", "ngbig", "adump", "wfcheck"), nontrivial=nt_adf)],
     rule=ADF_GEN + "stable_nogood / two_val_nogood_channel / stable_nogood_channel with Simple, both counting heuristics, 4 scripted custom heuristics (PRNG-chosen undecided statement and value per call, "
          "trace logged) and 3 Rand seeds per ADF, on native and bridged objects; outputs in order + traces + node tables vs the Lean model, multisets vs Spec; non-trivial = distinct ADF with >= 2 statements and >= 5 nodes",
     assumptions=["well-formed ADFs; custom heuristics always propose an undecided statement with a truth value"],
